@@ -98,11 +98,13 @@ BigLaw(R) ==
     [] R.op = "muldiv" -> ~BIsZero(R.c) /\ BIsRounded(R.r, BMul(R.a, R.b), R.c, BEffRnd(R))
     [] R.op = "cmp"    -> R.flags = BigCmpWant(R)
     [] R.op = "str"    -> R.unchanged /\ BIsFloorDiv(R.pu, BAdd(BMul(BMul(BSmall(2), R.a), R.Db), R.Sb), BMul(BSmall(2), R.Sb)) /\ R.digits_ok
+    [] R.op = "strq"   -> R.unchanged /\ R.digits_ok           \* rational a/ad: floor(a*D/ad + 1/2) = floor((2aD + ad) / 2ad)
+                          /\ BIsFloorDiv(R.pu, BAdd(BMul(BMul(BSmall(2), R.a), R.Db), R.ad), BMul(BSmall(2), R.ad))
     [] OTHER -> FALSE
 BigFails(R) ==
   (IF R.same_cls THEN {} ELSE {"C12:result_class"}) \cup
   (IF BigLaw(R) THEN {}
-   ELSE {(IF R.op = "str" THEN (IF R.a.neg THEN "C14:KNOWN_F8" ELSE "C14:print_big")
+   ELSE {(IF R.op \in {"str", "strq"} THEN (IF R.a.neg THEN "C14:KNOWN_F8" ELSE "C14:print_big")
           ELSE IF R.op = "cmp" /\ R.cls = "guarded" THEN "C13:big_cmp" ELSE IF R.cls = "guarded" THEN "C13:g_big_" \o R.op ELSE "C12:big_" \o R.op)})
 
 Negative(R) == IF R.cls = "rational" THEN R.a[1] < 0 ELSE R.a < 0
